@@ -45,7 +45,7 @@ func init() {
 			}
 			return false
 		},
-		Rule:     "one subject string and 1..8 independent calls on it. Streams: mixed = 0..9 fragments of {a,B,_,1,é,你,😀,\\xff,\\xe4\\xbd}; edge = the same mixed 50/50 with boundary scalars of every encoded length (U+7F,U+80,U+7FF,U+800,U+D7FF,U+E000,U+FFFD,U+FFFF,U+10000,U+10FFFF) and malformed sequences (lone continuation, truncated 2/3/4-byte, overlong, surrogate, >U+10FFFF, 0xf8); ident = words of the grammar [a-z][a-z0-9]*(_[a-z][a-z0-9]*)*; ident-mutated = one insertion of _,A,Z,1,é,你,\\xff,_1 into such a word; camel = the camelCase/PascalCase image of such a word. Arguments 0..runeCount+3 (30% within ±1..3 of the end, 30% in the lower half so that sums stay inside), 4% huge (MaxInt64-k, MaxInt64/2+k, MaxInt64-runeCount-k, 2^31..2^62: sums wrap around in int), -1 for Sub's length, 2% negative (correspondence only). Corpus: every string of ≤ 3 fragments with every in-scope argument. Non-trivial = the subject contains a multi-byte rune or an invalid byte, or is a grammar identifier with at least one underscore; distinct by hash of subject+ops",
+		Rule:     "one subject string and 1..8 independent calls on it. Streams: mixed = 0..9 fragments of {a,B,_,1,é,你,😀,\\xff,\\xe4\\xbd}; edge = the same mixed 50/50 with boundary scalars of every encoded length (U+7F,U+80,U+7FF,U+800,U+D7FF,U+E000,U+FFFD,U+FFFF,U+10000,U+10FFFF) and malformed sequences (lone continuation, truncated 2/3/4-byte, overlong, surrogate, >U+10FFFF, 0xf8); ident = words of the grammar [a-z][a-z0-9]*(_[a-z][a-z0-9]*)*; ident-mutated = one insertion of _,A,Z,1,é,你,\\xff,_1 into such a word; camel = the camelCase/PascalCase image of such a word. Arguments 0..runeCount+3 (30% within ±1..3 of the end, 30% in the lower half so that sums stay inside), 4% huge (MaxInt64-k, MaxInt64/2+k, MaxInt64-runeCount-k, 2^31..2^62: sums wrap around in int), -1 for Sub's length, 2% negative (correspondence only). large (header `@ C17 L`) = subjects of 1 000-16 384 runes (rarely 65 535-65 537; thorough up to 100 000) of mixed / single / single-wide-rune-in-ASCII / invalid composition and identifiers of 500+ segments, arguments 0,1,n-1,n,n+1,2n,MaxInt64-k and 255..65537, masks of 0, 1, up to 6000 runes. Corpus: every string of ≤ 3 fragments with every in-scope argument. Non-trivial = the subject contains a multi-byte rune or an invalid byte, or is a grammar identifier with at least one underscore; distinct by hash of subject+ops",
 		Classify: classify,
 		Parallel: true,
 		Extras:   []core.Extra{Utf8TieExtra()},
@@ -86,10 +86,46 @@ func unhx(h string) (string, bool) {
 
 func subject(c core.Case) (string, bool) {
 	t := core.Toks(c.Lines[0])
-	if len(t) != 4 || t[2] != "s" {
+	if len(t) != 4 || (t[2] != "s" && t[2] != "L") {
 		return "", false
 	}
 	return unhx(t[3])
+}
+
+// isLarge: header `@ C17 L <hex>` (large stream; the oracle answers `skip` where it has no
+// linear-time evaluation, see lean/Golib/Model/C17.lean).
+func isLarge(c core.Case) bool {
+	t := core.Toks(c.Lines[0])
+	return len(t) == 4 && t[2] == "L"
+}
+
+func isASCII(s string) bool {
+	for i := 0; i < len(s); i++ {
+		if s[i] >= utf8.RuneSelf {
+			return false
+		}
+	}
+	return true
+}
+
+// largeSkip mirrors the oracle's `skip` conditions for a large subject.
+func largeSkip(s string, t []string) bool {
+	neg := func(x string, min int) bool { v, err := strconv.Atoi(x); return err != nil || v < min }
+	switch t[0] {
+	case "sub":
+		return len(t) != 3 || !utf8.ValidString(s) || neg(t[1], 0) || neg(t[2], -1)
+	case "mask":
+		if len(t) != 4 {
+			return true
+		}
+		m, ok := unhx(t[1])
+		return !ok || !utf8.ValidString(s) || !utf8.ValidString(m) || neg(t[2], 0) || neg(t[3], 0)
+	case "rev", "remove":
+		return !utf8.ValidString(s)
+	case "s2c", "c2s", "round":
+		return !isASCII(s)
+	}
+	return false
 }
 
 func mk(s string, ops ...string) core.Case {
@@ -210,7 +246,160 @@ func genIdent(r *core.Rand) (string, string) {
 	return s[:pos] + ins + s[pos:], "ident-mutated"
 }
 
+var largeRunes = []int{1000, 1023, 1024, 1025, 2048, 4095, 4096, 4097, 8192, 16384}
+
+// genLarge: subjects of 1 000 - 16 384 runes (rarely 65 535..65 537; thorough: up to 100 000),
+// arguments at 0, 1, n-1, n, n+1, 2n, MaxInt64-k and around the byte/rune thresholds, masks of
+// 0, 1, many runes, identifiers of 500+ segments.
+func genLarge(r *core.Rand, tier string) core.Case {
+	n := largeRunes[r.Intn(len(largeRunes))]
+	if r.Chance(20) {
+		n = r.Range(1000, 20000)
+	}
+	if r.Chance(5) || (tier == "thorough" && r.Chance(30)) {
+		n = []int{65535, 65536, 65537}[r.Intn(3)]
+		if tier == "thorough" && r.Chance(40) {
+			n = []int{99999, 100000, r.Range(65537, 100000)}[r.Intn(3)]
+		}
+	}
+	var sb strings.Builder
+	ident := false
+	switch r.Pick(3, 2, 2, 2, 2, 3) {
+	case 0: // mixed widths
+		for i := 0; i < n; i++ {
+			sb.WriteString([]string{"a", "B", "_", "1", "é", "你", "😀", "�", "\u07ff", "\U00010000"}[r.Intn(10)])
+		}
+	case 1: // ASCII with a single wide rune at a random position (byte offsets = rune offsets before it)
+		pos := r.Intn(n)
+		for i := 0; i < n; i++ {
+			if i == pos {
+				sb.WriteString([]string{"é", "你", "😀"}[r.Intn(3)])
+			} else {
+				sb.WriteByte(byte('a' + r.Intn(26)))
+			}
+		}
+	case 2: // one width only
+		f := []string{"x", "é", "你", "😀"}[r.Intn(4)]
+		for i := 0; i < n; i++ {
+			sb.WriteString(f)
+		}
+	case 3: // invalid UTF-8 (no-panic, Len, SubByDisplay, and `skip` elsewhere)
+		for i := 0; i < n; i++ {
+			sb.WriteString([]string{"a", "你", "\xff", "\xe4\xbd", "😀"}[r.Pick(4, 3, 2, 1, 2)])
+		}
+	case 4: // plain ASCII text
+		for i := 0; i < n; i++ {
+			sb.WriteByte(byte(r.Range(32, 126)))
+		}
+	default: // identifier of n/6 >= 166 .. 500+ segments (or its camel image)
+		ident = true
+		segs := n / 2
+		if segs < 500 {
+			segs = 500 + r.Intn(100)
+		}
+		camel := r.Chance(30)
+		up := r.Bool()
+		for i := 0; i < segs; i++ {
+			w := genWord(r)
+			if camel {
+				if i > 0 || up {
+					w = strings.ToUpper(w[:1]) + w[1:]
+				}
+			} else if i > 0 {
+				sb.WriteByte('_')
+			}
+			sb.WriteString(w)
+		}
+	}
+	s := sb.String()
+	n = utf8.RuneCountInString(s)
+	arg := func() int {
+		switch r.Pick(2, 2, 2, 2, 2, 2, 2, 3, 2) {
+		case 0:
+			return 0
+		case 1:
+			return 1
+		case 2:
+			return n - 1
+		case 3:
+			return n
+		case 4:
+			return n + 1
+		case 5:
+			return 2 * n
+		case 6:
+			return math.MaxInt64 - r.Range(0, 3)
+		case 7:
+			return r.Range(0, n)
+		default:
+			return []int{255, 256, 257, 1023, 1024, 1025, 4095, 4096, 4097, 65535, 65536, 65537}[r.Intn(12)]
+		}
+	}
+	lines := []string{"@ C17 L " + hx(s)}
+	for k := r.Range(2, 5); k > 0; k-- {
+		var w []int
+		if ident {
+			w = []int{1, 1, 1, 1, 1, 1, 5, 5, 6}
+		} else {
+			w = []int{6, 6, 5, 3, 2, 3, 1, 1, 1}
+		}
+		switch r.Pick(w...) {
+		case 0:
+			l := arg()
+			if r.Chance(20) {
+				l = -1
+			}
+			lines = append(lines, fmt.Sprintf("sub %d %d", arg(), l))
+		case 1:
+			var m string
+			switch r.Pick(3, 2, 2, 2, 1) {
+			case 0:
+				m = "*"
+			case 1:
+				m = "你"
+			case 2:
+				m = ""
+			case 3: // many runes
+				m = strings.Repeat([]string{"#", "é#", "x你😀"}[r.Intn(3)], r.Range(2, 2000))
+			default:
+				m = "\xff"
+			}
+			a, b := arg(), arg()
+			if r.Chance(50) && n > 4 { // make sure there is something to mask
+				a, b = r.Range(0, n/2), r.Range(0, n/2-1)
+			}
+			lines = append(lines, fmt.Sprintf("mask %s %d %d", hx(m), a, b))
+		case 2:
+			lim := arg()
+			if r.Bool() {
+				lim = r.Range(0, len(s)+2)
+			}
+			lines = append(lines, fmt.Sprintf("subd %d", lim))
+		case 3:
+			lines = append(lines, "rev")
+		case 4:
+			lines = append(lines, "len")
+		case 5:
+			lines = append(lines, "remove "+hx([]string{"a", "你", "_", "😀é", "�", "", "xyz"}[r.Intn(7)]))
+		case 6:
+			lines = append(lines, "s2c "+strconv.FormatBool(r.Bool()))
+		case 7:
+			lines = append(lines, "c2s")
+		case 8:
+			lines = append(lines, "round "+strconv.FormatBool(r.Bool()))
+		}
+	}
+	if r.Chance(30) {
+		lines = append(lines, "ucfirst", "lcfirst")
+	}
+	return core.Case{Lines: lines, Tag: "large"}
+}
+
 func gen(r *core.Rand, tier string) core.Case {
+	// large stream: ~0.3 % of the cases in quick (about 300), 0.1 % of the (30x larger) thorough budget
+	if (tier != "thorough" && r.Intn(1000) < 3) || (tier == "thorough" && r.Intn(1000) < 1) {
+		return genLarge(r, tier)
+	}
 	var s, tag string
 	if r.Chance(25) {
 		s, tag = genIdent(r)
@@ -410,9 +599,14 @@ func impl(c core.Case) []string {
 	}
 	before := strings.Clone(s)
 	out = append(out, "ok")
+	large := isLarge(c)
 	for _, l := range c.Lines[1:] {
 		t := core.Toks(l)
-		out = append(out, core.Guard(func() string { return call(s, t) }))
+		o := core.Guard(func() string { return call(s, t) })
+		if large && o != "panic" && o != "bad-op" && len(t) > 0 && largeSkip(s, t) {
+			o = "skip" // the call was made (no panic); the result is outside the oracle's linear evaluation
+		}
+		out = append(out, o)
 	}
 	if s != before {
 		out[0] = "input-modified"
@@ -444,7 +638,7 @@ func check(c core.Case, out []string) *core.Failure {
 	n := len(rs)
 	for i := 1; i < len(c.Lines); i++ {
 		t := core.Toks(c.Lines[i])
-		if len(t) == 0 || out[i] == "bad-op" {
+		if len(t) == 0 || out[i] == "bad-op" || out[i] == "skip" {
 			continue
 		}
 		fn := t[0]
@@ -627,6 +821,14 @@ func classify(c core.Case, out []string) []string {
 		ls = append(ls, "subject:in-grammar")
 	}
 	n := utf8.RuneCountInString(s)
+	if isLarge(c) {
+		ls = append(ls, "subject:large")
+		for _, th := range []int{4096, 65536} {
+			if n > th {
+				ls = append(ls, fmt.Sprintf("subject:large>%d-runes", th))
+			}
+		}
+	}
 	for i, l := range c.Lines[1:] {
 		t := core.Toks(l)
 		if len(t) == 0 {
@@ -634,6 +836,10 @@ func classify(c core.Case, out []string) []string {
 		}
 		o := out[i+1]
 		ls = append(ls, "op:"+t[0])
+		if o == "skip" {
+			ls = append(ls, t[0]+":large-skip")
+			continue
+		}
 		if o == "panic" {
 			ls = append(ls, t[0]+":panic")
 			continue
